@@ -170,6 +170,12 @@ Theorem C10_first_wire_method_path_query : forall detect c s,
 Proof. exact first_wire_method_query. Qed.
 Print Assumptions C10_first_wire_method_path_query.
 
+(* "Connection: close" exactly when the caller asked for it, on every attempt *)
+Theorem C10_first_wire_close : forall detect c s,
+  w_close (wire_of c (prepare detect c s)) = r_close s.
+Proof. exact first_wire_close. Qed.
+Print Assumptions C10_first_wire_close.
+
 Theorem C10_first_wire_cookies : forall detect c s,
   (r_attempt s <= 0)%Z ->
   w_cookies (wire_of c (prepare detect c s)) = r_cookies s ++ c_cookies c.
@@ -438,6 +444,14 @@ Print Assumptions C10_wrapper_error_is_the_attempts_error.
 Theorem C10_context_and_body_as_modelled : ctx_read_per_attempt = true /\ getbody_fresh_reader = true.
 Proof. exact context_and_body_as_modelled. Qed.
 Print Assumptions C10_context_and_body_as_modelled.
+
+(* per-attempt code must not write request state that the next attempt is built from: the only
+   Request fields Client.roundTrip assigns are bookkeeping (read off the source by gosync); the
+   model's per-attempt step [after_send] accordingly touches nothing but the one-shot reader *)
+Theorem C10_roundtrip_writes_only_bookkeeping :
+  roundtrip_assigns = [bs "RawRequest"; bs "StartTime"; bs "trace"].
+Proof. exact roundtrip_writes_only_bookkeeping. Qed.
+Print Assumptions C10_roundtrip_writes_only_bookkeeping.
 
 (* ---------- several requests of one client ---------- *)
 
